@@ -1069,13 +1069,17 @@ def static(repo):
     constructors(repo, procs, out)
     out.append(NEW_OBJECTS)
     apply_method(repo, out)
-    gens = [g for g, _, _ in LEMMAS]
-    lem = ["Ltac unf := cbv beta zeta delta [%s\n    %s]." % (" ".join(gens), " ".join(PY_NAMES)), ""]
+    lem, done = [], []
     for g, args, py in LEMMAS:
+        unf = "unfold %s, %s" % (g, py.split()[0])
+        rw = ("repeat match goal with " + " ".join(done) + " end") if done else "idtac"
         if args:
-            lem.append("Lemma %s_is_py : forall %s, %s %s = %s %s.\nProof. tie unf. Qed." % (g, args, g, args, py, args))
+            lem.append("Lemma %s_is_py : forall %s, %s %s = %s %s.\nProof. tie ltac:(%s) ltac:(%s). Qed." % (g, args, g, args, py, args, unf, rw))
         else:
-            lem.append("Lemma %s_is_py : %s = %s.\nProof. tie unf. Qed." % (g, g, py))
+            lem.append("Lemma %s_is_py : %s = %s.\nProof. tie ltac:(%s) ltac:(%s). Qed." % (g, g, py, unf, rw))
+        n = len(args.split())              # syntactic match on the head constant (rewrite alone unifies up to unfolding)
+        pat = " ".join("?x%d" % k for k in range(n))
+        done.append("| |- context [%s] => rewrite (%s_is_py%s)" % ((g + " " + pat).strip(), g, "".join(" x%d" % k for k in range(n))))
     what = ["managers.py:Manager.__init__ (basis bookkeeping fields)", "managers.py:Manager.get_current_basis",
             "managers.py:Manager.register_with_basis", "managers.py:Manager.set_new_basis",
             "managers.py:Manager.store_current_basis_operator", "managers.py:Manager.transform_to_current_basis",
